@@ -128,6 +128,19 @@ fn main() {
         c06::golden_write();
         return;
     }
+    if args[1] == "ptytest" {
+        // machinery self-test of the pseudo-terminal wiring
+        let sc = proc::Scratch::new();
+        sc.write("plain.bin", b"hello pty");
+        for (controlling, stdin_tty, stdout_tty) in [(false, true, false), (true, false, false), (true, true, false), (false, true, true), (true, true, true)] {
+            let mut c = proc::Cmd::new(&["password", "encrypt", "plain.bin", "-o", "out.ktl"]);
+            c.pty = Some(proc::PtySpec { typed: b"secret\nsecret\n".to_vec(), controlling, stdin_is_tty: stdin_tty, stdout_is_tty: stdout_tty });
+            let _ = std::fs::remove_file(sc.path("out.ktl"));
+            let out = proc::run(&c, &sc.0);
+            println!("controlling={} stdin_tty={} stdout_tty={}: {} tty={:?} outfile={:?}", controlling, stdin_tty, stdout_tty, out.summary(), String::from_utf8_lossy(&out.tty_output), sc.read("out.ktl").map(|f| f.len()));
+        }
+        return;
+    }
     if args[1] == "list" {
         for c in checks() {
             println!("{} {}", c.id, c.level);
